@@ -15,8 +15,8 @@ claims = {
    note=TB+" flattenRegion's contract (recursive over nested Regions) and sort.Sort's permutation/sortedness contract are assumed.",
    design='4/C09'),
  'C16': dict(
-   text="Closed-form ORIGIN size arithmetic proved for all lengths: toOriginLength(n) == olen(n), fromOriginLength(olen(n)) == n, olen strictly monotone (LIA with Go-truncated div/mod); layout loops of NewOrigin/Origin.Bytes under contract as they are added.",
-   note=TB, design='4/C16'),
+   text="For all lengths below 10^9-60: toOriginLength(n) == olen(n), fromOriginLength(olen(n)) == n, olen strictly monotone; NewOrigin writes exactly the layout (index columns, space before each group of ten, residues, newline) and Origin.Bytes reads exactly the residues back (nested loop invariants over hidden layout classes and separately proved position lemmas); Len without decoding equals the residue count; the round trip NewOrigin;Bytes is the identity (ghost lemma function); the fast validator accepts a block of the right length iff every byte is in place (both directions), the line-by-line reader returns only layout blocks, and the ORIGIN field reader accepts only a block of the declared length.",
+   note=TB+" fmt.Sprintf(\"%9d\") is an assumed external contract (9 right-aligned columns for 0 <= v < 10^9, digits uninterpreted); nres is the specification inverse of olen (axiom justified by the monotonicity lemma); completeness of the slow path and Origin.String are not under contract.", design='4/C16'),
  'C05': dict(
    text="Leaf Reverse contracts (Point, Ranged, Ambiguous, Between): residue x is covered before iff L-1-x is covered after, partial flags swap; Segment.Complement; replaceBytes. Between.Reverse is a recorded known finding (off by one, pinned by a test).",
    note=TB+" Composite (Joined/Ordered/Complemented) Reverse and the sequence-level Reverse are not yet under contract.", design='4/C05'),
@@ -54,6 +54,11 @@ claims.update({
  'C13': dict(
    text="Header.Validate is proved to return nil exactly when all three digests equal the expected ones (all lengths, all contents); ReadHeader to return three adjacent size-byte fields of one fresh buffer only after a full read; Open to return without error only if the stored header carries the caller's root and data sums and the digest taken after Reset + exactly one copy of the file remainder, with the reader repositioned just behind the header and the Validate error never swallowed; Close to write the header at offset 0 only after the body digest was taken from a freshly reset hash fed by one copy. Universally quantified over file contents (the reader, hash and file are external and unconstrained).",
    note=TB+" hash.Hash, io.Reader, os.File, io.Copy and flate are external: typestate ghosts (what was fed to the hash, last Seek offset) stand for them; collision-freedom of the digest, the flate round trip and durability/ordering of OS writes are assumptions, not obligations.", design='4/C13'),
+})
+claims.update({
+ 'C07': dict(
+   text="No-panic obligations (every index, slice, type assertion, strings.Repeat count, State.Request size, explicit panic) discharged for all token contents and lengths in the hand-written reader code: the GenBank field-name/line/body/subfield/DBLINK/KEYWORDS/SOURCE/REFERENCE/CONTIG/extra-field closures, the ORIGIN fast validator and line-by-line reader, the location parsers (between, range, ambiguous, join, order, list, delimiter), qualifier value parsers, selector splitting, date/molecule/topology parsing; every hand-written loop in them has a variant (termination). The ORIGIN reader is additionally proved to accept a record only with a layout block of exactly the declared number of residues. Five panics / silent acceptances were found and repaired.",
+   note=TB+" go-pars primitives and parsers built by combinators are external: tokens are unconstrained, ParseLocation is assumed to yield a Location, function values may write only through their pointer arguments; totality and linear time of the combinator-built parsers, the table/qualifier dispatch closures that rely on pars.Seq result shapes, Scanner error filtering and the 'declared length without ORIGIN' inconsistency (pinned by the test data) are not decided.", design='4/C07'),
 })
 not_app = {
  'C01': "string/grammar round trip through fmt, go-wrap and go-pars closures and global registries: no contract within reach expresses parse(print(x)) = x (DESIGN.md section 7)",
